@@ -4,12 +4,14 @@ import (
 	"fmt"
 	"strings"
 	"sync"
+	"sync/atomic"
 	"time"
 
 	imodels "github.com/influxdata/influxdb/models"
 	"github.com/influxdata/kapacitor"
 	"github.com/influxdata/kapacitor/alert"
 	"github.com/influxdata/kapacitor/edge"
+	"github.com/influxdata/kapacitor/keyvalue"
 	"github.com/influxdata/kapacitor/models"
 
 	"kapverif/rt"
@@ -47,6 +49,7 @@ type fwdRec struct {
 
 // stepObs is everything observed for one input step of one ID.
 type stepObs struct {
+	Anon int // events an inline handler (anonymous topic) got for this step
 	Ev   []evRec
 	NFwd int // forwarded messages (stream: points, batch: batches)
 	Fwd  []fwdRec
@@ -105,12 +108,51 @@ func (c *collector) Handle(e alert.Event) {
 	c.mu.Unlock()
 }
 
+// inlineHandler is what the node's .talk() inline handler resolves to (the
+// harness is the TalkService): it records which (ID, step) it was handed and,
+// when gated, blocks inside Handle - a stuck inline handler whose queue fills up.
+type inlineHandler struct {
+	mu      sync.Mutex
+	got     map[string][]int
+	gate    chan struct{} // nil: never blocks
+	entered atomic.Int64
+}
+
+func (h *inlineHandler) Handle(e alert.Event) {
+	h.entered.Add(1)
+	if h.gate != nil {
+		<-h.gate
+	}
+	h.mu.Lock()
+	g := e.Data.Tags["g"]
+	h.got[g] = append(h.got[g], intField(e.Data.Fields, "b"))
+	h.mu.Unlock()
+}
+
+type talkService struct {
+	mu sync.Mutex
+	h  *inlineHandler
+}
+
+func (t *talkService) Handler(...keyvalue.T) alert.Handler {
+	t.mu.Lock()
+	defer t.mu.Unlock()
+	return t.h
+}
+
+func (t *talkService) set(h *inlineHandler) {
+	t.mu.Lock()
+	t.h = h
+	t.mu.Unlock()
+}
+
 // Exec runs chunks of sequences through real tasks on one assembled TaskMaster.
 type Exec struct {
-	env *rt.Env
-	n   int
+	env  *rt.Env
+	talk *talkService
+	n    int
 	// measured totals
-	Points, Events, Forwarded, Tasks, NodeErrors int
+	Points, Events, Forwarded, Tasks, NodeErrors, InlineEvents int
 }
 
 // chunkErrs is what the task and its nodes reported through their diagnostics
@@ -135,12 +177,17 @@ func (c *chunkErrs) add(class string) {
 	}
 }
 
-func NewExec() (*Exec, error) {
-	env, err := rt.NewEnv(rt.EnvOpts{TopicBufLen: topicBuf})
+func NewExec() (*Exec, error) { return NewExecBuf(topicBuf) }
+
+// NewExecBuf: bufLen is the per-handler event queue of the alert service.
+func NewExecBuf(bufLen int) (*Exec, error) {
+	env, err := rt.NewEnv(rt.EnvOpts{TopicBufLen: bufLen})
 	if err != nil {
 		return nil, err
 	}
-	return &Exec{env: env}, nil
+	x := &Exec{env: env, talk: &talkService{}}
+	env.TM.TalkService = x.talk
+	return x, nil
 }
 
 func (x *Exec) Close() { x.env.Close() }
@@ -172,11 +219,67 @@ func stepTimes(s Seq) (pts [][]int, tmax []int) {
 // Run executes seqs (one alert ID each, ids[i]) through ONE real task with
 // configuration cfg, the steps of all IDs interleaved round-robin, drains the
 // task and returns the observations per sequence and step.
-func (x *Exec) Run(cfg Cfg, seqs []Seq, ids []string, cut int) ([][]stepObs, chunkErrs) {
+//
+// o.Cut >= 0: the task is stopped and a new one started on the same topic before
+// step Cut.  o.Stuck (stream, cfg.Inline, an executor with a small handler queue):
+// the inline handler blocks inside Handle from the first event on, so its queue
+// fills up and collecting for the anonymous topic fails from then on; the steps
+// are fed in rounds with exact waits, so that the named topic's own queue can
+// never fill.
+type runOpts struct {
+	Cut   int
+	Stuck bool
+}
+
+const sentinelID = "zz"
+
+func (x *Exec) Run(cfg Cfg, seqs []Seq, ids []string, o runOpts) ([][]stepObs, chunkErrs) {
+	cut := o.Cut
 	x.n++
 	topic := fmt.Sprintf("c01topic%d", x.n)
 	col := &collector{evs: map[string][]evRec{}}
 	x.env.Alert.RegisterAnonHandler(topic, col)
+	var inl *inlineHandler
+	if cfg.Inline {
+		inl = &inlineHandler{got: map[string][]int{}}
+		if o.Stuck {
+			inl.gate = make(chan struct{})
+		}
+		x.talk.set(inl)
+	}
+	var namedEnq, namedDone, sentinels atomic.Int64
+	if o.Stuck {
+		if cfg.Batch || !cfg.Inline {
+			rt.Fatalf("c01: the stuck-handler scenario needs a stream configuration with an inline handler")
+		}
+		alert.VerifHook = func(point string, args ...string) {
+			if len(args) > 0 && args[0] == topic {
+				switch point {
+				case "handler.enq":
+					namedEnq.Add(1)
+				case "handler.done":
+					namedDone.Add(1)
+				}
+			}
+		}
+		x.env.Diag.OnItem = func(it rt.SinkItem) {
+			if it.Sink == "fwd" && it.Point != nil && it.Point.Tags()["g"] == sentinelID {
+				sentinels.Add(1)
+			}
+		}
+		defer func() { alert.VerifHook = nil; x.env.Diag.OnItem = nil }()
+	}
+	waitFor := func(what string, cond func() bool) {
+		deadline := time.Now().Add(120 * time.Second)
+		for i := 0; !cond(); i++ {
+			if time.Now().After(deadline) {
+				rt.Fatalf("c01: %s not reached within the deadline", what)
+			}
+			if i > 50 {
+				time.Sleep(100 * time.Microsecond)
+			}
+		}
+	}
 	tt := kapacitor.StreamTask
 	if cfg.Batch {
 		tt = kapacitor.BatchTask
@@ -251,12 +354,36 @@ func (x *Exec) Run(cfg Cfg, seqs []Seq, ids []string, cut int) ([][]stepObs, chu
 				x.Points++
 			}
 		}
+		if o.Stuck && b == 0 && len(wr) > 1 {
+			// primer: one event first; once the inline handler is stuck holding it, the
+			// number of events its queue still takes is exact
+			if err := x.env.Write("db", "rp", wr[0]); err != nil {
+				rt.Fatalf("c01: write: %v", err)
+			}
+			written++
+			wr = wr[1:]
+			waitFor("the inline handler holding the first event", func() bool { return inl.entered.Load() >= 1 })
+		}
+		if o.Stuck {
+			// the sentinel ID is always CRITICAL: when its point of this round shows up
+			// downstream the alert node has processed (and collected) the whole round
+			wr = append(wr, rt.MustPoint("m", map[string]string{"g": sentinelID},
+				fieldsOf(Pt{C: [3]bool{true, true, true}}, b, 0), tmap.T(b+1)))
+		}
 		if len(wr) > 0 {
 			if err := x.env.Write("db", "rp", wr...); err != nil {
 				rt.Fatalf("c01: write: %v", err)
 			}
 			written += len(wr)
 		}
+		if o.Stuck {
+			round := int64(b + 1)
+			waitFor("the round's sentinel downstream of the alert node", func() bool { return sentinels.Load() >= round })
+			waitFor("the named topic's handler catching up", func() bool { return namedEnq.Load() == namedDone.Load() })
+		}
+	}
+	if o.Stuck {
+		close(inl.gate) // the inline handler works off what its queue took
 	}
 	// end-of-trace drain; then the handler is deregistered, which drains its queue
 	// synchronously.
@@ -270,8 +397,12 @@ func (x *Exec) Run(cfg Cfg, seqs []Seq, ids []string, cut int) ([][]stepObs, chu
 	rep := chunkErrs{}
 	for _, e := range x.env.Diag.Errors() {
 		fromTask := strings.HasPrefix(e.Ctx, "task:") || strings.HasPrefix(e.Ctx, "node:")
-		if !fromTask || e.Msg == "encountered error collecting event" {
+		if !fromTask || (e.Msg == "encountered error collecting event" && !o.Stuck) {
 			rt.Fatalf("c01: harness assumption broken (%+v) for %v", e, cfg)
+		}
+		if e.Msg == "encountered error collecting event" {
+			rep.add(e.Msg + " | (handler queue full)") // the error text names the event: one class
+			continue
 		}
 		rep.add(e.Msg + " | " + e.Err)
 	}
@@ -288,7 +419,12 @@ func (x *Exec) Run(cfg Cfg, seqs []Seq, ids []string, cut int) ([][]stepObs, chu
 		idx[ids[i]] = i
 		out[i] = make([]stepObs, len(s))
 	}
+	var scratch stepObs
 	put := func(g string, b int) *stepObs {
+		if o.Stuck && g == sentinelID {
+			scratch = stepObs{}
+			return &scratch
+		}
 		i, ok := idx[g]
 		if !ok || b < 0 || b >= len(out[i]) {
 			rt.Fatalf("c01: output for unknown input (group %q step %d)", g, b)
@@ -304,6 +440,16 @@ func (x *Exec) Run(cfg Cfg, seqs []Seq, ids []string, cut int) ([][]stepObs, chu
 		}
 	}
 	col.mu.Unlock()
+	if inl != nil {
+		inl.mu.Lock()
+		for g, bs := range inl.got {
+			for _, b := range bs {
+				put(g, b).Anon++
+				x.InlineEvents++
+			}
+		}
+		inl.mu.Unlock()
+	}
 	for _, it := range x.env.Diag.SinkItems("fwd") {
 		if it.Point != nil {
 			p := it.Point
@@ -356,12 +502,18 @@ func fwdOf(f models.Fields, tags models.Tags) fwdRec {
 // emit writes one trace (Reset + one S line per step) for a sequence.
 // nerr / nerrc: errors the task reported while the chunk this ID belongs to ran.
 // cut >= 0: the task was restarted before step cut (a Restart line).
-func emit(t *rt.Trace, cfg Cfg, id string, s Seq, obs []stepObs, rep chunkErrs, cut int) {
+// stuck: the trace belongs to the stuck-inline-handler scenario (replay re-runs the
+// whole scenario, one ID alone cannot fill a queue).
+func emit(t *rt.Trace, cfg Cfg, id string, s Seq, obs []stepObs, rep chunkErrs, cut int, stuck bool) {
 	errc := make([]any, len(rep.Classes))
 	for i, c := range rep.Classes {
 		errc[i] = c
 	}
-	t.Reset(rt.M{"setup": cfg.JSON(), "id": id, "nerr": rep.N, "nerrc": errc})
+	rs := rt.M{"setup": cfg.JSON(), "id": id, "nerr": rep.N, "nerrc": errc}
+	if stuck {
+		rs["stuck"] = true
+	}
+	t.Reset(rs)
 	times, tmaxs := stepTimes(s)
 	for b, st := range s {
 		if b == cut {
@@ -383,6 +535,10 @@ func emit(t *rt.Trace, cfg Cfg, id string, s Seq, obs []stepObs, rep chunkErrs, 
 			fids = append(fids, f.ID)
 			ftids = append(ftids, f.TagID)
 		}
-		t.Event("S", rt.M{"id": id, "pts": pts, "tmax": tmaxs[b], "o": evs, "oid": eids, "nf": o.NFwd, "f": fw, "fid": fids, "ftid": ftids})
+		ln := rt.M{"id": id, "pts": pts, "tmax": tmaxs[b], "o": evs, "oid": eids, "nf": o.NFwd, "f": fw, "fid": fids, "ftid": ftids}
+		if cfg.Inline {
+			ln["an"] = o.Anon
+		}
+		t.Event("S", ln)
 	}
 }
